@@ -61,11 +61,13 @@ class Tok:
 class LineV:
     python_type = "str"
 
-    def __init__(self, fields, lead=False, trail=False, nl=True, comment=None, sep="ws"):
+    def __init__(self, fields, lead=False, trail=False, nl=True, comment=None, sep="ws", comment_fields=None):
         self.fields, self.lead, self.trail, self.nl, self.comment, self.sep = list(fields), lead, trail, nl, comment, sep
+        self.comment_fields = comment_fields      # the words of the comment text, when they matter (a commented-out row)
 
     def but(self, **kw):
-        d = dict(fields=self.fields, lead=self.lead, trail=self.trail, nl=self.nl, comment=self.comment, sep=self.sep)
+        d = dict(fields=self.fields, lead=self.lead, trail=self.trail, nl=self.nl, comment=self.comment, sep=self.sep,
+                 comment_fields=self.comment_fields)
         d.update(kw)
         return LineV(**d)
 
@@ -225,7 +227,10 @@ class LineWorld(CtorWorld):
         glued = line.comment == "glued" and bool(line.fields)
         if line.comment is not None and not glued:
             # splitting a line that still carries its comment: the comment words become fields
-            extra = [Tok("comment-word", dirty="comment")]
+            if line.comment_fields:
+                extra = [line.comment_fields[0].but(dirty="glued-to-the-marker")] + list(line.comment_fields[1:])
+            else:
+                extra = [Tok("comment-word", dirty="comment")]
         else:
             extra = []
         if glued:
@@ -422,6 +427,7 @@ def row_shapes(fmt, sep):
         ("valid row + trailing comment", valid[1].but(comment="after"), valid[2]),
         ("valid row + comment glued to the last field", valid[1].but(comment="glued"), valid[2]),
         ("comment-only line", LineV([], comment="start", sep=sep), None),
+        ("commented-out valid row", LineV([], comment="start", sep=sep, comment_fields=list(valid[1].fields)), None),
         ("empty string", LineV([], nl=False, sep=sep), None),
         ("bare newline", LineV([], nl=True, sep=sep), None),
         ("blanks only", LineV([], lead=True, trail=True, nl=True, sep=sep), None),
@@ -882,7 +888,14 @@ def _compact_at(repo, rep, fn, construct, all_methods, syms, R):
                     ok = isinstance(val, DictObj) and len(val.entries) == 3
                     got = {}
                     if ok:
+                        # keys are values: a key may come back written as another symbol of the same value plus an exact gap
+                        named = []
                         for k, v in val.entries.items():
+                            if isinstance(k, Int):
+                                s_ = next((sy for sy in syms if ot.cmp_terms(k.term(), (sy, 0), "==")), None)
+                                k = Int(s_) if s_ is not None else k
+                            named.append((k, v))
+                        for k, v in named:
                             if isinstance(k, Int) and k.k == 0 and isinstance(v, Const):
                                 got[k.base] = v.v
                             elif isinstance(k, Int) and k.k == 0 and isinstance(v, Int) and ot.has("0") and \
